@@ -42,7 +42,8 @@ FitClauses(r) ==
     <<"EvalUsesFixed", r.evalsame /\ r.evalkeep>>,
     <<"FitOutcomeAsSpecified", r.outcome1 = spec /\ r.outcome2 = spec>>,
     <<"FixedStable", r.fdev1 <= FixedTolE15 /\ r.fdev2 <= FixedTolE15>>,
-    (* "estimated" = moved, finite, and - for maximum likelihood - a maximiser of the constrained  *)
+    (* "estimated" = moved, finite, admissible (free*adm: every free parameter that the family      *)
+    (* defines as positive is > 0), and - for maximum likelihood - a maximiser of the constrained  *)
     (* likelihood: the log-likelihood at the fit (llgen / llpert: differences in 1e-6, 2e9 = not     *)
     (* applicable) is not lower than at the generating parameters, which satisfy the constraints     *)
     (* (own-family data are drawn with the fixed parameters at their fixed values), nor at + / - 1 %  *)
@@ -51,8 +52,8 @@ FitClauses(r) ==
     (* scipy-vonmises subclass; for the norm-fit log-normal llpert = 0 iff the free parameters are     *)
     (* exactly the sample mean / sample standard deviation (the estimator that defines the family)     *)
     <<"FreeEstimated",
-        /\ (r.outcome1 = "ok" => r.free1changed /\ r.free1finite /\ r.llgen1 >= -LlTolE6 /\ r.llpert1 >= -LlTolE6)
-        /\ (r.outcome2 = "ok" => r.free2changed /\ r.free2finite /\ r.llgen2 >= -LlTolE6 /\ r.llpert2 >= -LlTolE6)>>,
+        /\ (r.outcome1 = "ok" => r.free1changed /\ r.free1finite /\ r.free1adm /\ r.llgen1 >= -LlTolE6 /\ r.llpert1 >= -LlTolE6)
+        /\ (r.outcome2 = "ok" => r.free2changed /\ r.free2finite /\ r.free2adm /\ r.llgen2 >= -LlTolE6 /\ r.llpert2 >= -LlTolE6)>>,
     (* ParamRoutingHist!InstancesShareNoState: the life cycle run at two positions of two       *)
     (* shuffled sequential runs of ALL life cycles in one process reproduces the outcomes and    *)
     (* the fitted parameters of its own run bit for bit                                          *)
